@@ -303,6 +303,39 @@ func embeddedOnly(rt *rapid.T) []byte {
 	return b[:len(b)-rapid.SampledFrom([]int{0, 0, 40, 41, 42, 43, 44}).Draw(rt, "cut")]
 }
 
+// cutInsideValue: a bare block that ends in the middle of one of its out-of-line values (what a failed
+// read leaves in the scratch buffer must not reach the result).
+func cutInsideValue(rt *rapid.T) []byte {
+	f := gen.GenExif(rt, gen.Options{Unbuffered: true, MaxForeign: 1, PlainStrings: true})
+	b := f.Enc.II
+	if rapid.Bool().Draw(rt, "mm") {
+		b = f.Enc.MM
+	}
+	var offs []int
+	for _, o := range f.Enc.ValueOff {
+		if o > 8 && o < len(b) {
+			offs = append(offs, o)
+		}
+	}
+	if len(offs) == 0 {
+		return b[:len(b)/2]
+	}
+	sortInts(offs)
+	cut := offs[rapid.IntRange(0, len(offs)-1).Draw(rt, "which")] + rapid.IntRange(1, 6).Draw(rt, "into")
+	if cut > len(b) {
+		cut = len(b)
+	}
+	return b[:cut]
+}
+
+func sortInts(a []int) {
+	for i := 1; i < len(a); i++ {
+		for j := i; j > 0 && a[j] < a[j-1]; j-- {
+			a[j], a[j-1] = a[j-1], a[j]
+		}
+	}
+}
+
 func zoneFile(rt *rapid.T) []byte {
 	// the same local time with different spellings of the zone offset
 	r := gen.GenRecord(rt, gen.Options{NoGPS: true, PlainStrings: true})
@@ -328,7 +361,9 @@ func genCase(rt *rapid.T) Case {
 	for i := 0; i < n; i++ {
 		var data []byte
 		kind := ""
-		switch rapid.IntRange(0, 8).Draw(rt, "inputclass") {
+		switch rapid.IntRange(0, 9).Draw(rt, "inputclass") {
+		case 9:
+			data, kind = cutInsideValue(rt), "tiff"
 		case 8:
 			data, kind = embeddedOnly(rt), "tiff"
 		case 0:
@@ -425,7 +460,7 @@ func init() { pbt.Register(chk) }
 
 func TestProp(t *testing.T) {
 	defer rec.MustWrite()
-	rec.Rule("histories of 4-30 steps over one process: decode(entry, input) with every entry point over a per-history pool of 3-8 inputs (well-formed files of every container, truncated and hostile-edited ones, TIFFs whose out-of-line fields are given counts that fit the 4-byte slot, TIFFs whose zone-offset strings are respelled: +00:00 / -00:00 / same-hour variants, tiny directories with an empty or one-entry pending list cut at the next-IFD pointer), " +
+	rec.Rule("histories of 4-30 steps over one process: decode(entry, input) with every entry point over a per-history pool of 3-8 inputs (well-formed files of every container, truncated and hostile-edited ones, TIFFs whose out-of-line fields are given counts that fit the 4-byte slot, TIFFs whose zone-offset strings are respelled: +00:00 / -00:00 / same-hour variants, tiny directories with an empty or one-entry pending list cut at the next-IFD pointer, blocks that end inside an out-of-line value), " +
 		"hash(image, function) over right- and wrong-size images, poison (verification hook: the Exif buffer pool is refilled with buffers whose scratch area, 84-entry tag array, len and pos are hostile; the pixel pools with other data), gc. " +
 		"oracle: (i) every call's digest (value, error, panic) equals the digest of the same call on pristine state (fresh pools, empty zone cache), computed once per (entry, input); (ii) every returned value is kept and re-digested after each later step: it must not change. " +
 		"non-trivial = the history ran at least one decode on a pooled buffer (no new buffer allocated) and has >= 2 decodes with a poison step or >= 2 distinct inputs; distinct by history")
